@@ -17,7 +17,7 @@ func init() {
 	property("C19",
 		"Static conformance of the lexer's position bookkeeping and tables: (a) width-fact typestate over every token construction site — a start/end column may be derived as 'counter - k' only where the last k characters are known to be one byte wide (ASCII case arms, peeked ASCII second characters); after a reader loop the current character is a lookahead of unknown width (possibly none at end of input), so the prev* counters must be used; byte counters go to byte fields and character counters to character fields; start fields are read before the token's first character is consumed; (b) readChar restarts the four column counters and increments the line exactly when the previous character was a newline; end of input is readPosition >= len(input) in readChar and peekChar alike, and readChar is the only function that stores the position, line and column counters; (c) on every non-queued path whitespace {space, tab, LF, CR} and '#' / '//' comments are skipped before the dispatch; (d) the keyword table equals the README keyword list; plus the token-origin clauses of C16.c and the lexer start state / -lm wiring of C17.f. NOT decided: layout invariance of the token sequence itself (runtime string scanning; false by design where an identifier touches a quote or a comment separates adjacent strings).",
 		[]string{"unicode.IsLetter / IsDigit / utf8.DecodeRuneInString behave as documented", "go/ssa lowering is faithful to the source"},
-		"C19.a", "C19.b", "C19.c", "C19.d", "C19.e", "C16.a", "C16.c", "C17.f")
+		"C19.a", "C19.b", "C19.c", "C19.d", "C19.e", "C16.a", "C16.c", "C17.f", "C19.f", "C16.d")
 
 	register(&Rule{ID: "C19.a", Doc: "width-fact typestate over token construction sites", Floor: 40, Run: c19a})
 	register(&Rule{ID: "C19.b", Doc: "readChar line/column reset; end-of-input test shared by readChar and peekChar", Floor: 8, Run: c19b})
@@ -562,6 +562,56 @@ func c19b(c *Ctx) {
 		}
 	}
 	c.Check(okAdv && okU, "readChar/advance", c.W.FuncPos(fn), "byte column grows by the decoded width, char column by one iff a character was read", "readChar does not advance (charNumber += width, utf8CharNumber++ iff width > 0)")
+	// ... and nothing else: every store to a counter in readChar is one of the stores above, under
+	// exactly its condition (a line that is also bumped for other characters, a column that is
+	// not bumped for some of them, would make positions disagree with the source)
+	{
+		pc := c.PC(fn)
+		var base *dnf
+		for _, st := range storesToField(fn, "lexer", "Lexer", "position") {
+			d := pc.canonOf(pc.At(st.Block()))
+			base = &d
+		}
+		szLit := "+(0 < " + sizePhi + ")"
+		type exp struct{ field, value, class string }
+		table := []exp{
+			{"lineNumber", "$0.lineNumber+1", "NL"}, {"prevCharNumber", "0", "NL"}, {"prevUtf8CharNumber", "0", "NL"}, {"charNumber", sizePhi, "NL"}, {"utf8CharNumber", "1", "NL"},
+			{"prevCharNumber", "$0.charNumber", "U"}, {"prevUtf8CharNumber", "$0.utf8CharNumber", "U"}, {"position", "$0.readPosition", "U"},
+			{"utf8CharNumber", "$0.utf8CharNumber+1", "SZ"},
+		}
+		nStores := 0
+		for _, fld := range []string{"lineNumber", "charNumber", "utf8CharNumber", "prevCharNumber", "prevUtf8CharNumber", "position", "readPosition"} {
+			for i, st := range storesToField(fn, "lexer", "Lexer", fld) {
+				nStores++
+				v := c.term(fn, st.Val)
+				class := ""
+				for _, e := range table {
+					if e.field == fld && e.value == v {
+						class = e.class
+					}
+				}
+				if class == "" && (fld == "charNumber" || fld == "readPosition") && strings.Contains(v, "$0."+fld) && strings.Contains(v, sizePhi) {
+					class = "U"
+				}
+				key := fmt.Sprintf("readChar/exact/%s#%d", fld, i)
+				pos := c.W.Pos(st.Pos())
+				if class == "" || base == nil {
+					c.Bad(key, pos, "readChar sets "+fld+" = "+pretty(v)+", which is none of the counter updates of the position model (advance by the decoded width; on the character after a line feed: line+1, columns restart)")
+					continue
+				}
+				want := *base
+				switch class {
+				case "NL":
+					want = dnfAndLit(want, nl)
+				case "SZ":
+					want = dnfAndLit(want, szLit)
+				}
+				d := pc.canonOf(pc.At(st.Block()))
+				c.Check(dnfEquiv(d, want), key, pos, fld+" = "+pretty(v)+" exactly "+map[string]string{"U": "on every call", "NL": "when the previous character was a line feed", "SZ": "when a character was read"}[class], "readChar sets "+fld+" = "+pretty(v)+" under "+d.String()+", expected exactly "+want.String())
+			}
+		}
+		c.Check(nStores >= 10, "readChar/exact/stores", c.W.FuncPos(fn), "counter stores of readChar enumerated", fmt.Sprintf("expected at least 10 counter stores in readChar, found %d", nStores))
+	}
 	// the newline test uses the previous character
 	// the width (chosen in place, or by a decoding helper): 0 at end of input, else the decoded size
 	const inInput, atEnd = "+($0.readPosition < builtin:len($0.input))", "-($0.readPosition < builtin:len($0.input))"
